@@ -20,12 +20,12 @@ func init() {
 	core.Register(&core.Prop{
 		ID:    "C14",
 		Level: "exploration",
-		Rule: "operations are produced by real datatypes from generator V (Go numerics of every width at boundary values, pointers, structs with/without tags, typed maps and slices, nested containers, hostile valid-UTF-8 strings, batches, transactions, snapshot and error operations) and pushed through every stage: ToModelOperation -> proto.Marshal/Unmarshal -> schema.NewOperationDoc -> bson.Marshal/Unmarshal -> GetOperation -> operations.ModelToOperation -> ToModelOperation; oracle per operation: same id and type, JSON-equivalent body, no stage panics or errors, and OrdaService.TestEncodingOperation echoes an equivalent operation; oracle per history: a replica fed with the fully decoded operations, a replica fed with the wire operations and the issuing replica agree (view, sizes, element reads); " +
+		Rule: "operations are produced by real datatypes from generator V (Go numerics of every width at boundary values, pointers, structs with/without tags, typed maps and slices, nested containers, hostile valid-UTF-8 strings, batches, transactions, snapshot and error operations) and pushed through every stage: ToModelOperation -> proto.Marshal/Unmarshal -> schema.NewOperationDoc -> bson.Marshal/Unmarshal -> GetOperation -> operations.ModelToOperation -> ToModelOperation; oracle per operation: same id and type, JSON-equivalent body, no stage panics or errors, and OrdaService.TestEncodingOperation echoes an equivalent operation; oracle per history: a replica fed with the fully decoded operations, a replica fed with the wire operations and the issuing replica agree (view, sizes, element reads); service stage (one case in eight): a client of the real service pushes such operations (values of several KiB included), every stored operation document is read back from the MongoDB stand-in and compared with what was sent, and a client that subscribes afterwards plus the server's rebuild read what the issuing client reads; " +
 			"non-trivial = some value of the history is a nested container, a string outside [A-Za-z0-9], or a numeric at a width boundary, and >=5 operations went through the chain; distinct = hash of the call script",
 		Assumptions: []string{
 			"values are JSON-representable; strings are valid UTF-8",
 			"integers beyond 2^53 are compared by effect (all replicas agree), not with the Go literal",
-			"the BSON stage is bson.Marshal/Unmarshal of schema.OperationDoc as the repository layer does; a real insert/find through the MongoDB stand-in is exercised by the E-svc checks",
+			"the BSON stage of the codec chain is bson.Marshal/Unmarshal of schema.OperationDoc as the repository layer does; the service stage goes through the real service, the real driver and the MongoDB stand-in",
 		},
 		Cases: func(t string) int { return tierN(t, 4000, 60000) },
 		Floor: func(t string) int { return tierN(t, 1000, 15000) },
@@ -161,11 +161,15 @@ func interestingValue(v interface{}) bool {
 }
 
 func runC14(c *core.Case) *core.Result {
+	if c.Index%8 == 7 {
+		return c14Service(c)
+	}
 	typ := crdt.Types[c.Index%4]
 	g := crdt.NewGen(c.Rng)
 	g.Exotic = 0.5
 	g.BigBatch = 0.15
 	g.HostileKeys = 0.3
+	g.Long = 0.04
 	h := crdt.NewHist(c, g, typ, 2)
 	O := h.Reps[0]
 	if c.Index%3 == 0 {
